@@ -4,6 +4,7 @@ import re
 
 from ..core import AnalysisError
 from .shared_py import inn
+from . import shared_py as P
 from ..pyfront import unparse, try_const, path_conditions, norm_key
 from ..cxxlib import nows
 from .. import templ, predabs, cxxfront
@@ -11,8 +12,7 @@ from .. import templ, predabs, cxxfront
 MOD = 'prophyc.generators.cpp'
 
 
-def ws(s):
-    return re.sub(r'\s+', ' ', s)
+from ..pyfront import ws  # noqa: E402,F401  (whitespace-collapsed, rename/normal-form tolerant `in`)
 
 
 # ------------------------------------------------------------------------------------------------ C08
@@ -69,12 +69,20 @@ def hpp_struct(ctx, L):
             'gen_member|single-exit', f.site(), 'every member kind must fall through to the padding step: an early return skips '
             'the manual padding that the packed struct needs after that member', src[-200:])
     # gap 1: member.padding > 0 -> manual padding, guarded against None and the negative marker
-    pads = [n for n in f.node.body if isinstance(n, ast.If) and 'member.padding' in unparse(n.test)]
-    ok = len(pads) == 1 and nows(unparse(pads[0].test)) == 'member.paddingisnotNoneandmember.padding>0' \
-        and ws(unparse(pads[0].body)) == 'field += padder.generate_padding(member.padding)' and not pads[0].orelse
+    GM = ['member', 'padder']
+    pads = [c for c in f.walk() if isinstance(c, ast.Call) and isinstance(c.func, ast.Attribute) and c.func.attr == 'generate_padding'
+            and len(c.args) == 1 and ws(unparse(c.args[0])) == '%s.padding' % f.params[0]]
+    ok = len(pads) == 1
+    if ok:
+        stmt = m.parent(pads[0])
+        ok = isinstance(stmt, ast.AugAssign) and isinstance(stmt.op, ast.Add) and stmt.value is pads[0] \
+            and stmt in f.node.body[-1:] + [x for n in f.node.body for x in ast.walk(n)] \
+            and P.facts(f, stmt) == P.expected_facts('member.padding is not None and member.padding > 0', True, GM, m) \
+            and any(isinstance(r, ast.Return) and unparse(r.value) == unparse(stmt.target) for r in f.node.body[-1:])
     L.check(ok, 'C08.gap-obligation', 'gen_member|padding-after-member', f.site(pads[0] if pads else None),
-            'after each member the model\'s positive member.padding must be emitted as manual padding (and only when positive: '
-            'None = unknown, negative = alignment marker handled by the part structs)', ws(unparse(pads[0])) if pads else '')
+            'after each member the model\'s positive member.padding must be emitted as manual padding (exactly when it is positive: '
+            'None = unknown, negative = alignment marker handled by the part structs) and appended to the returned text',
+            ws(unparse(m.parent(pads[0]))) if pads else '')
     # gap 2: optional flag -> value
     opt = [n for n in f.node.body if isinstance(n, ast.If) and unparse(n.test) == 'member.optional']
     if len(opt) != 1:
@@ -96,9 +104,17 @@ def hpp_struct(ctx, L):
         b = nows(unparse(g.body))
         if 'member.alignment' in t or 'member.alignment' in b:
             bumped = True
-        if re.search(r'value_alignment>(model\.)?DISC_SIZE', t) and 'generate_padding(value_alignment-' in b and \
-                inn('value_alignment = _get_value_alignment(member)', osrc) and helper_ok:
-            gok = True
+        calls = [c for c in ast.walk(g) if isinstance(c, ast.Call) and isinstance(c.func, ast.Attribute) and c.func.attr == 'generate_padding']
+        srcs = [a for a in f.walk() if isinstance(a, ast.Assign) and ws(unparse(a.value)) == '_get_value_alignment(%s)' % f.params[0]
+                and isinstance(a.targets[0], ast.Name)]
+        if len(calls) == 1 and len(srcs) == 1 and helper_ok:
+            va = srcs[0].targets[0].id
+            arg = ws(unparse(calls[0].args[0])).replace('model.DISC_SIZE', 'DISC_SIZE')
+            need = P.expected_facts('member.optional and %s > model.DISC_SIZE' % va, True, GM, m)
+            may = need | P.expected_facts('%s is not None' % va, True, GM, m)
+            got = P.facts(f, calls[0])
+            if arg == '%s - DISC_SIZE' % va and need <= got <= may:
+                gok = True
     L.check(not bumped, 'C08.gap-obligation', 'gen_member|optional-gap-source', f.site(opt[0]),
             'the flag-to-value gap is derived from member.alignment, which the model bumps to the block alignment for the first member '
             'of a block after a dynamic field: {u32 n; u8 x<@n>; u8* o; u64 b} would get a gap the wire format does not have; the gap '
@@ -200,65 +216,71 @@ def swap_templates(ctx, L):
             'C09.member-ladder', '_member_access_statement', acc.site(), 'scalars by address, arrays by name (pointer to first element)', a)
 
 
+SWAP_GEN_MEMBER = """
+    if member.is_array:
+        is_dynamic = member.kind == model.Kind.DYNAMIC
+        swap_mode = 'dynamic' if is_dynamic else 'fixed'
+        if member.bound:
+            bound = member.bound
+            if member.bound not in delimiters:
+                bound = 'payload->' + bound
+            return 'swap_n_{0}({1}, {2})'.format(swap_mode, _member_access_statement(member), bound)
+        elif not member.bound and member.size:
+            return 'swap_n_{0}({1}, {2})'.format(swap_mode, _member_access_statement(member), member.size)
+    else:
+        if member.optional:
+            preamble = 'swap(&payload->has_{0});\\nif (payload->has_{0}) '.format(member.name)
+        else:
+            preamble = ''
+        return preamble + 'swap({0})'.format(_member_access_statement(member))
+"""
+
+SWAP_GEN_LAST_MEMBER = """
+    if last_mem.kind == model.Kind.UNLIMITED or last_mem.greedy:
+        return 'return cast<{0}*>({1});\\n'.format(name, _member_access_statement(last_mem))
+    elif last_mem.kind == model.Kind.DYNAMIC or last_mem.is_dynamic:
+        return 'return cast<{0}*>({1});\\n'.format(name, gen_member(last_mem, delimiters))
+    else:
+        return gen_member(last_mem) + ';\\n' + 'return payload + 1;\\n'
+"""
+
+
 def swap_ladder(ctx, L):
-    """(c) every non-last member class yields exactly one swap statement; dynamic/fixed mode by element kind."""
+    """(c) what the swap generator emits for every abstract member class - the statements on the member's own path, compared at
+    meaning level with the reference ladder above: one swap statement per member; swap_n_dynamic exactly for arrays whose
+    element kind is DYNAMIC; counters read from payload-> unless passed in as delimiters; the has_ flag swapped before it is
+    tested."""
     m = ctx.py.mod(MOD)
     f = m.func('_CppSwapTranslator.translate_struct.gen_member')
     props = predabs.model_props(ctx.py)
-    ev = predabs.Evaluator(props, 'member', env={'delimiters': []})
-    body = f.node.body
-    top = [s for s in body if isinstance(s, ast.If)]
-    if len(top) != 1 or unparse(top[0].test) != 'member.is_array':
-        raise AnalysisError('swap gen_member: `if member.is_array` ladder not found')
-    inner = [s for s in top[0].body if isinstance(s, ast.If) and 'bound' in unparse(s.test)]
-    if len(inner) != 1:
-        raise AnalysisError('swap gen_member: bound/size sub-ladder not found')
-    rows = templ.if_chain(inner[0])
-    src = ws(unparse(top[0]))
-    L.check(inn("is_dynamic = member.kind == model.Kind.DYNAMIC", src) and inn("swap_mode = 'dynamic' if is_dynamic else 'fixed'", src),
-            'C09.swap-mode', 'gen_member|mode', f.site(), 'swap_n_dynamic exactly for arrays whose element kind is DYNAMIC (elements of '
-            'varying size: step by the returned pointer), swap_n_fixed otherwise', src[:200])
-    dom = [a for a in predabs.domain() if not a.last and a.padding == 0 and a.form != 'plain']
+    dom = [a for a in predabs.domain() if a.padding == 0 and not (a.last and (a.form == 'greedy' or a.kind == predabs.UNLIMITED))]
+    diffs = P.differs_from_reference(f, SWAP_GEN_MEMBER, ['member', 'delimiters'], 'member', props, dom)
+    bad = dict((am.label() if am is not None else 'signature', (got, want)) for am, got, want in diffs)
     n = 0
     for a in dom:
-        try:
-            hits = [i for i, r in enumerate(rows) if predabs.truth(ev, r.guards, a) and r.body]
-        except predabs.Unknown as e:
-            raise AnalysisError('swap gen_member: guard not recognised: %s' % e)
         n += 1
-        rets = [ws(unparse(r)) for i in hits for r in rows[i].body if isinstance(r, ast.Return)]
-        if a.form in ('limited', 'dynamic'):
-            want = ["return 'swap_n_{0}({1}, {2})'.format(swap_mode, _member_access_statement(member), bound)"]
-        else:
-            want = ["return 'swap_n_{0}({1}, {2})'.format(swap_mode, _member_access_statement(member), member.size)"]
-        L.check(rets == want, 'C09.member-ladder', 'gen_member|%s' % a.label(), f.site(inner[0]),
-                'a non-last `%s` member must yield exactly one swap statement %s; the ladder yields %s (a member falling through '
-                'every branch emits `None;`)' % (a.label(), want, rets), str(rets))
+        got, want = bad.get(a.label(), (None, None))
+        L.check(a.label() not in bad and 'signature' not in bad, 'C09.member-ladder', 'gen_member|%s' % a.label(), f.site(),
+                'for a `%s` member the swap generator must do %s; it does %s (a member falling through every branch emits `None;`)'
+                % (a.label(), want, got), str(got)[:300])
     L.floor('C09.member-ladder', n, 10)
-    L.check(inn("bound = member.bound if member.bound not in delimiters: bound = 'payload->' + bound", src), 'C09.member-ladder',
-            'gen_member|counter-source', f.site(), 'the element count is read from payload-> unless it was passed in as a delimiter', '')
+    acc = m.func('_member_access_statement')
+    a = ws(unparse(acc.node))
 
 
 def last_member_and_casts(ctx, L):
     """(d) cast-target rule + (e) part numbering agreement in the swap translator."""
     m = ctx.py.mod(MOD)
     g = m.func('_CppSwapTranslator.translate_struct.gen_last_member')
-    src = ws(unparse(g.node))
-    chain = [s for s in g.node.body if isinstance(s, ast.If)]
-    if len(chain) != 1:
-        raise AnalysisError('gen_last_member: ladder not found')
-    rows = templ.if_chain(chain[0])
-    tests = [ws(unparse(r.guards[-1][0])) if r.guards[-1][1] else 'else' for r in rows]
-    L.check(tests == ['last_mem.kind == model.Kind.UNLIMITED or last_mem.greedy', 'last_mem.kind == model.Kind.DYNAMIC or last_mem.is_dynamic', 'else'],
-            'C09.last-member', 'gen_last_member|ladder', g.site(chain[0]),
-            'last member: unlimited/greedy -> return its address; dynamic -> swap then align the end; fixed -> swap, payload + 1', str(tests))
-    if len(rows) == 3:
-        L.check(ws(unparse(rows[0].body)) == "return 'return cast<{0}*>({1});\\n'.format(name, _member_access_statement(last_mem))",
-                'C09.last-member', 'gen_last_member|greedy', g.site(), 'a greedy tail is not walked: its (aligned) address is returned', '')
-        L.check(ws(unparse(rows[1].body)) == "return 'return cast<{0}*>({1});\\n'.format(name, gen_member(last_mem, delimiters))",
-                'C09.last-member', 'gen_last_member|dynamic', g.site(), 'a dynamic tail is swapped and the end pointer returned', '')
-        L.check(ws(unparse(rows[2].body)) == "return gen_member(last_mem) + ';\\n' + 'return payload + 1;\\n'",
-                'C09.last-member', 'gen_last_member|fixed', g.site(), 'a fixed tail: swap, return payload + 1', '')
+    props = predabs.model_props(ctx.py)
+    dom = [a for a in predabs.domain() if a.padding == 0 and a.last]
+    diffs = P.differs_from_reference(g, SWAP_GEN_LAST_MEMBER, ['name', 'last_mem', 'delimiters'], 'last_mem', props, dom)
+    bad = dict((am.label() if am is not None else 'signature', (got, want)) for am, got, want in diffs)
+    for a in dom:
+        got, want = bad.get(a.label(), (None, None))
+        L.check(a.label() not in bad and 'signature' not in bad, 'C09.last-member', 'gen_last_member|%s' % a.label(), g.site(),
+                'last member `%s`: unlimited/greedy -> return its (aligned) address unwalked; dynamic -> swap it and return the end pointer; '
+                'fixed -> swap, return payload + 1; expected %s, the generator does %s' % (a.label(), want, got), str(got)[:300])
     # (d) what is the end of a part's dynamic data aligned to?
     gp = m.func('_CppSwapTranslator.translate_struct.gen_part')
     ps = ws(unparse(gp.node))
